@@ -21,7 +21,7 @@ def build(tier, seed, exclude):
     params = "sd: int" + ", k: int"
     pre = [f"0 <= sd < {4 ** NS}", "0 <= k <= 3"]
     ch = f"AP.S.decode(T.real(sd), {NS}, 4)"
-    for shape in ("indep", "forkjoin"):
+    for shape in ("indep", "forkjoin", "dupref"):
         g.cond(f"h_async_{shape}", params, pre, f"""
             kk = T.real(k)
             err = AP.c15({shape!r}, {ch}, None if kk == 0 else kk)
@@ -33,10 +33,10 @@ def build(tier, seed, exclude):
             return T.fail(err) if err else True
         """, timeout=to)
     # the synchronous loop (debug worker)
-    g.cond("h_sync", "which: bool, k: int", ["0 <= k <= 3"], """
+    g.cond("h_sync", "which: int, k: int", ["0 <= which <= 2 and 0 <= k <= 3"], """
         import vf.engine as E, vf.rec as R
         from vf.hl import engdefs as D
-        shape = "forkjoin" if T.real(which) else "indep"
+        shape = ["indep", "forkjoin", "dupref"][T.real(which)]
         from vf.hl import sched as S
         S.install(); S.reset()
         E.reset(); R.clear()
@@ -65,4 +65,4 @@ def build(tier, seed, exclude):
         err = AP.c15("indep", [0, 0, 0, 0, 2, 1], None, warm_rerun=True) or AP.c15("indep", [0, 0, 0, 0, 1, 0], None, warm_rerun=True)
         return T.fail(err) if err else True
     """)
-    return g.spec(bounds={"shapes": ["indep", "forkjoin"], "schedule": f"{NS} four-way decisions", "max_concurrent": "unlimited, 1, 2, 3"})
+    return g.spec(bounds={"shapes": ["indep", "forkjoin", "dupref (a node reading one upstream twice and another one on a longer branch)"], "schedule": f"{NS} four-way decisions", "max_concurrent": "unlimited, 1, 2, 3"})
